@@ -67,7 +67,7 @@ def suite_passes(d):
 
 
 def run_check(d, pid, tier, workers):
-    env = dict(os.environ, VERIF_REPO=d, VERIF_WORKERS=str(workers))
+    env = dict(os.environ, VERIF_REPO=d, VERIF_WORKERS=str(workers), VERIF_FAIL_DIR=d + "/fails")
     t0 = time.time()
     r = subprocess.run(["/verif/check.py", pid, "--tier", tier, "--no-evidence"], capture_output=True, text=True, env=env, cwd="/verif")
     out = r.stdout + r.stderr
